@@ -87,8 +87,26 @@ func genSnap(r *Rng, tier string, idx int, prop string) *Plan {
 		p.Profile = "conc" // writers interleaved with the state copy
 	}
 	snaps := r.Range(1, 3)
+	namesake := r.Chance(0.3)
+	if namesake {
+		// the same key name in two logical databases, with a deadline in one of them only that passes before the
+		// snapshot or between snapshot and restore: what happens to a key of one database must not reach its namesake
+		p.Knobs["callers"] = 2
+		for p.Knobs["tcpdb"] == p.Knobs["embdb"] {
+			p.Knobs["embdb"] = Pick(r, dbChoices)
+		}
+	}
 	for sidx := 0; sidx < snaps; sidx++ {
 		writes(r.Range(1, nmax))
+		if namesake {
+			k := Pick(r, g.Keys)
+			vol := r.Intn(2)
+			p.Ops = append(p.Ops, Op{C: vol, Args: []string{"SET", k, "volatile-" + k}}, Op{C: 1 - vol, Args: []string{"SET", k, "persistent-" + k}},
+				Op{C: vol, Args: []string{"PEXPIRE", k, "40"}})
+			if r.Bool() {
+				p.Ops = append(p.Ops, Op{Kind: "advance", N: 50}) // expired (and uncollected) when the snapshot is taken
+			}
+		}
 		if sidx > 0 && r.Chance(0.25) {
 			// everything is deleted: the next snapshot is that of an empty keyspace
 			p.Ops = append(p.Ops, Op{C: r.Intn(2), Args: []string{"FLUSHALL"}})
@@ -104,6 +122,9 @@ func genSnap(r *Rng, tier string, idx int, prop string) *Plan {
 				p.Ops = append(p.Ops, Op{Kind: "concwrite", C: r.Intn(2), Args: g.Cmd(r)})
 			}
 			p.Ops = append(p.Ops, Op{Kind: "join"})
+		}
+		if namesake && r.Bool() {
+			p.Ops = append(p.Ops, Op{Kind: "advance", N: 60}) // the deadline passes between snapshot and restore
 		}
 		if r.Chance(0.2) {
 			p.Ops = append(p.Ops, Op{Kind: "save"}) // nothing new
